@@ -122,7 +122,10 @@ def run(ctx):
                 ctx.violation("impl-violation", "c16Holds", {"input": {"specific_yield": p}, "impl": got_knots[:5], "model": rk[:5],
                               "oracle": {"name": "c16Holds", "result": False,
                                          "witness": {"why": "published parameter set does not reproduce the reference R algorithm"}}})
-    tsets = [{"Ksmacz0": 7.3, "alpha": 3.0, "zeta_max_cm": 1.0}] + [
+    tsets = [{"Ksmacz0": 7.3, "alpha": 3.0, "zeta_max_cm": 1.0},
+             # the ceiling at the surface itself, as a float and as the integer a parameter file holds after `zeta_max_cm: 0`
+             {"Ksmacz0": 10 ** rng.uniform(-2, 2), "alpha": rng.uniform(1.05, 20.0), "zeta_max_cm": 0.0},
+             {"Ksmacz0": 10 ** rng.uniform(-2, 2), "alpha": rng.choice([2, 3, 5]), "zeta_max_cm": 0}] + [
         # alpha close to its lower bound 1 (where a calibration run drives it): still "alpha > 1"
         {"Ksmacz0": 10 ** rng.uniform(-2, 2), "alpha": 1.0 + 10 ** rng.uniform(-12, -3), "zeta_max_cm": rng.choice([1.0, 5.0])}
         for _ in range(4)] + [
